@@ -91,6 +91,9 @@ func ScenarioClasses(v *Verdict, sc *Scenario) {
 	if len(sc.Convs) >= 40 {
 		v.Class("converters>=40")
 	}
+	if len(sc.Convs) >= 36 && len(sc.Inputs) == 2 && len(sc.Target.In) == 2 && len(sc.Convs[0].In) == 2 {
+		v.Class("deep-diamond-ladder")
+	}
 	for _, l := range append(AllSourceLabels(sc), sc.Target.In...) {
 		switch l.Type {
 		case TypeU:
